@@ -8,7 +8,8 @@
      ordinary      Set replaces the first value (or appends), Add appends, Del removes every value
      single        (Content-Type, Server, Host, User-Agent, response Content-Encoding) one value; setting the empty
                    value removes it; an absent response Content-Type reads as the default content type
-     connection    one value, Set and Add both replace it
+     connection    one value, Set and Add both replace it; a value that carries the `close` option (a list member equal
+                   to "close" up to case) reads back as "close"
      number        (Content-Length) one value, only decimal numbers that fit an int are accepted
      cookie jar    (request Cookie) every cookie pair of every value set accumulates; read back as ONE field
                    "k1=v1; k2=v2"
@@ -18,7 +19,8 @@
    Borrowed vocabulary (owned by other properties, not re-specified here): the canonical form of a name
    (ByteClassModel.normalizeHeaderKey, proved equal to textproto canonicalisation by C32), decimal syntax
    (IntsSpec.spec_parse_uint, C30), the request-cookie pair syntax (Cookie.parseRequestCookies, C06) and the table
-   of names that may not be trailers (HeaderWrite.isBadTrailer / isValidTrailerKey). *)
+   of names that may not be trailers (HeaderWrite.isBadTrailer / isValidTrailerKey), and whether a Connection value
+   carries the close option (HeaderWrite.hasHeaderValue, the list-aware test owned by C10). *)
 From FH Require Import Model.Base Gen.GenC05 Model.Ints Spec.IntsSpec Model.ByteClassModel Model.Cookie Model.HeaderWrite.
 Open Scope N_scope.
 
@@ -97,7 +99,7 @@ Definition put (t : htype) (nonorm : bool) (add : bool) (m : mm) (k v : bytes) :
   match cls_of t c with
   | COrd => if add then mm_add m c v else mm_set_first m c v
   | CSingle => mm_single m c v
-  | CConn => mm_set_first m c v
+  | CConn => mm_set_first m c (if hasHeaderValue v strClose then strClose else v)
   | CNum => if is_int v then mm_set_first m c v else m
   | CJar => m ++ map (fun s => (c, s)) (cookie_pairs v)
   | CSetCookie => mm_add m c v
